@@ -82,6 +82,14 @@ theorem pairwise_or {α : Type} {R : α → α → Prop} {l : List α} (h : l.Pa
       | head => exact Or.inr (Or.inr (hx a ha))
       | tail _ hb => exact ih hxs ha hb
 
+theorem pairwise_of_forall_right {α : Type} {R : α → α → Prop} {l : List α} (h : ∀ b ∈ l, ∀ a, R a b) :
+    l.Pairwise R := by
+  induction l with
+  | nil => exact List.Pairwise.nil
+  | cons x xs ih =>
+    exact List.pairwise_cons.mpr ⟨fun b hb => h b (List.mem_cons_of_mem _ hb) x,
+      ih (fun b hb => h b (List.mem_cons_of_mem _ hb))⟩
+
 /-- the relation between a removed table and a table that stays beneath it -/
 abbrev SafePair (p : Tbl → Bool) (x y : Tbl) : Prop := p x = true → p y = false → DisjointKeys x.run y.run
 
@@ -380,8 +388,8 @@ theorem safe_core {L : Levels} {rm : List Nat} {lvl : Nat} {add : List Run} (n :
     have h0' : (l0.reverse ++ D1.flatten).Pairwise (SafePair (rmP rm)) := by
       simpa [readOrder] using h0
     refine List.pairwise_append.mpr ⟨h0', ?_, ?_⟩
-    · refine List.Pairwise.imp_of_mem ?_ (List.Pairwise.of_forall (l := Lv) (R := fun _ _ => True) (fun _ _ => trivial))
-      intro a b _ hb _ _ hpb
+    · apply pairwise_of_forall_right
+      intro b hb a _ hpb
       rw [hall b hb] at hpb; cases hpb
     · intro a _ b hb _ hpb
       rw [hall b hb] at hpb; cases hpb
@@ -403,9 +411,6 @@ theorem safe_core {L : Levels} {rm : List Nat} {lvl : Nat} {add : List Run} (n :
     rw [hL', hRO', hRO, hit_append, hit_append, hit_append, hit_eq_lookup_cat (mkTables n add), hcatnew]
     have hc := core_hit (rmP rm) U k hsU hnU hsafeU
     rw [← hc]
-    cases hit (U.filter (fun t => !rmP rm t)) k with
-    | some e => rfl
-    | none => rfl
   · rw [hL']
     refine ⟨?_, ?_, ?_⟩
     · intro t ht
@@ -444,5 +449,81 @@ theorem safe_core {L : Levels} {rm : List Nat} {lvl : Nat} {add : List Run} (n :
     · obtain ⟨r, hr, _, her⟩ := hnewMem e (List.mem_flatMap.mpr ⟨t', ht, he⟩)
       exact ⟨r, hflat r (List.mem_append_left _ hr), her⟩
     · exact ⟨t', hflat t' (List.mem_append_right _ ht), he⟩
+
+/-! ## A structural sufficient condition (what the compactor's picks and the executable test `safeCS` have in common) -/
+
+theorem shape_getD_D1 (l0 : List Tbl) (D1 : List (List Tbl)) (Lv : List Tbl) (D2 : List (List Tbl)) (i : Nat)
+    (hi : i < D1.length) : (l0 :: (D1 ++ Lv :: D2)).getD (i + 1) [] = D1[i] := by
+  simp [List.getD_eq_getElem?_getD, List.getElem?_append_left hi, List.getElem?_eq_getElem hi]
+
+theorem shape_getD_D2 (l0 : List Tbl) (D1 : List (List Tbl)) (Lv : List Tbl) (D2 : List (List Tbl)) (i : Nat)
+    (hi : i < D2.length) : (l0 :: (D1 ++ Lv :: D2)).getD (D1.length + 1 + 1 + i) [] = D2[i] := by
+  have : D1.length + 1 + 1 + i = (D1.length + 1 + i) + 1 := by omega
+  rw [this]
+  simp only [List.getD_eq_getElem?_getD, List.getElem?_cons_succ]
+  rw [List.getElem?_append_right (by omega)]
+  have : D1.length + 1 + i - D1.length = i + 1 := by omega
+  rw [this]
+  simp [hi]
+
+/-- two tables of a level whose ranges do not overlap share no key -/
+theorem disjoint_of_rangeUnique {l : List Tbl} (hs : ∀ t ∈ l, SortedRun t.run) (hu : RangeUnique l) :
+    l.Pairwise (fun a b => DisjointKeys a.run b.run) := by
+  refine List.Pairwise.imp_of_mem ?_ hu
+  intro a b ha hb hab ea hea eb heb hk
+  have h1 : a.rangeContainsKey ea.key = true := range_of_mem (hs a ha) hea
+  have h2 : b.rangeContainsKey eb.key = true := range_of_mem (hs b hb) heb
+  rw [← hk] at h2
+  exact hab ea.key ⟨h1, h2⟩
+
+theorem safe_of_structure {L : Levels} {rm : List Nat} {lvl : Nat} {add : List Run} (hv : WeakValid L)
+    (h1 : 1 ≤ lvl) (h2 : lvl < L.length)
+    (htarget : ∀ t ∈ L.getD lvl [], rmP rm t = true)
+    (hbelow : ∀ i, lvl < i → ∀ t ∈ L.getD i [], rmP rm t = false)
+    (hl0 : (L.headD []).Pairwise (fun older newer => rmP rm newer = true → rmP rm older = true))
+    (hclosed : ∀ i j, i < j → j < lvl → (∃ t ∈ L.getD i [], rmP rm t = true) → ∀ t ∈ L.getD j [], rmP rm t = true)
+    (hadd : add.flatten = mergeAll (((readOrder L).filter (rmP rm)).map (·.run)))
+    (hchunks : (∀ r ∈ add, r ≠ []) ∨ add = [[]]) : SafeCS L rm lvl add := by
+  refine ⟨h1, h2, htarget, ?_, ?_, hadd, hchunks⟩
+  · obtain ⟨l0, D1, Lv, D2, rfl, rfl⟩ := levels_split h1 h2
+    rw [shape_drop]
+    intro t ht
+    obtain ⟨l, hl, htl⟩ := List.mem_flatten.mp ht
+    obtain ⟨i, hi, rfl⟩ := List.mem_iff_getElem.mp hl
+    have := hbelow (D1.length + 1 + 1 + i) (by omega) t
+    rw [shape_getD_D2 _ _ _ _ i hi] at this
+    exact this htl
+  · obtain ⟨l0, D1, Lv, D2, rfl, rfl⟩ := levels_split h1 h2
+    rw [shape_take]
+    show (l0.reverse ++ D1.flatten).Pairwise (SafePair (rmP rm))
+    have hsortedAll : ∀ t ∈ (l0 :: (D1 ++ Lv :: D2)).flatten, SortedRun t.run := hv.sorted
+    refine List.pairwise_append.mpr ⟨?_, ?_, ?_⟩
+    · rw [List.pairwise_reverse]
+      have : (l0 :: (D1 ++ Lv :: D2)).headD [] = l0 := rfl
+      rw [this] at hl0
+      refine List.Pairwise.imp ?_ hl0
+      intro a b hab hpb hpa
+      rw [hab hpb] at hpa; cases hpa
+    · rw [List.pairwise_flatten]
+      refine ⟨?_, ?_⟩
+      · intro l hl
+        have hdeep : RangeUnique l := hv.deep l (List.mem_append_left _ hl)
+        have hsl : ∀ t ∈ l, SortedRun t.run := fun t ht =>
+          hsortedAll t (by simp only [List.flatten_cons, List.flatten_append, List.mem_append, List.mem_flatten]
+                           exact Or.inr (Or.inl ⟨l, hl, ht⟩))
+        exact (disjoint_of_rangeUnique hsl hdeep).imp (fun h _ _ => h)
+      · rw [List.pairwise_iff_getElem]
+        intro i j hi hj hij x hx y hy hpx hpy
+        have h1' := hclosed (i + 1) (j + 1) (by omega) (by omega)
+        rw [shape_getD_D1 _ _ _ _ i hi, shape_getD_D1 _ _ _ _ j hj] at h1'
+        rw [h1' ⟨x, hx, hpx⟩ y hy] at hpy; cases hpy
+    · intro x hx y hy hpx hpy
+      obtain ⟨l, hl, hyl⟩ := List.mem_flatten.mp hy
+      obtain ⟨j, hj, rfl⟩ := List.mem_iff_getElem.mp hl
+      have h1' := hclosed 0 (j + 1) (by omega) (by omega)
+      rw [shape_getD_D1 _ _ _ _ j hj] at h1'
+      have : (l0 :: (D1 ++ Lv :: D2)).getD 0 [] = l0 := rfl
+      rw [this] at h1'
+      rw [h1' ⟨x, List.mem_reverse.mp hx, hpx⟩ y hyl] at hpy; cases hpy
 
 end Rxn.Compaction
